@@ -29,6 +29,26 @@ pub fn is_transparent_newtype(n: &str) -> bool {
     matches!(n, "CmpWrapper" | "__ElemDispatch" | "__MakeSepArg" | "__NormalizeConcatArg")
 }
 
+/// `core::num::NonZeroU8` … `NonZeroIsize` (the twelve aliases of `core::num::NonZero<uN/iN>`): a value of such a type
+/// is read as its integer value (`Ty::Adt("NonZero", [Ty::Int(_)])`, in Lean `Nat` / `Int`), so that
+/// `NonZero*::get(self)` — "returns the contained value as a primitive type" — is the identity (tr_expr.rs).  The
+/// invariant `value != 0` is not part of the Lean type: a translated function is defined on (and a theorem about it
+/// covers) a superset of the values of the Rust type.  `get` is the only `NonZero*` method given a meaning (no
+/// constructor, no arithmetic): any other method call on such a value stays a translation error.
+pub fn nonzero_int(name: &str) -> Option<IntTy> {
+    let rest = name.strip_prefix("NonZero")?;
+    let prim = match rest {
+        "U8" | "U16" | "U32" | "U64" | "U128" | "Usize" | "I8" | "I16" | "I32" | "I64" | "I128" | "Isize" => rest.to_ascii_lowercase(),
+        _ => return None,
+    };
+    IntTy::parse(&prim)
+}
+
+/// the type built by `nonzero_int`
+pub fn is_nonzero(n: &str, targs: &[Ty]) -> bool {
+    n == "NonZero" && targs.len() == 1 && matches!(targs[0], Ty::Int(_))
+}
+
 pub fn lean_ident(s: &str) -> String {
     let s = s.trim_start_matches("r#");
     if RESERVED.lock().unwrap().iter().any(|r| r == s) {
@@ -470,6 +490,10 @@ impl<'a> Tr<'a> {
                     // a CStr is modelled as its bytes including the terminating nul
                     "CStr" => Ty::Slice(Box::new(Ty::Int(IntTy::U8))),
                     "PatternNorm" => Ty::Slice(Box::new(Ty::Int(IntTy::U8))),
+                    // core::num::NonZeroU8 …: the integer value (see `nonzero_int`), unless the crate declares such a type itself
+                    n if nonzero_int(n).is_some() && targs.is_empty() && !self.reg.structs.contains_key(n) && !self.reg.enums.contains_key(n) => {
+                        Ty::Adt("NonZero".into(), vec![Ty::Int(nonzero_int(n).unwrap())])
+                    }
                     _ => {
                         if let Some(t) = self.type_subst.get(&name) {
                             return t.clone();
@@ -600,6 +624,8 @@ impl<'a> Tr<'a> {
             // `CmpWrapper<T>(pub T)` is read as its field; the marker value of the coercion idiom as `()`
             Ty::Adt(n, targs) if is_transparent_newtype(n) && targs.len() == 1 => self.lean_ty(&targs[0])?,
             Ty::Adt(n, _) if n == "IsAConstCmp" => "Unit".into(),
+            // `NonZeroU8` …: its integer value
+            Ty::Adt(n, targs) if is_nonzero(n, targs) => self.lean_ty(&targs[0])?,
             Ty::Adt(n, targs) => {
                 let lean = self.reg.structs.get(n).or_else(|| self.reg.enums.get(n)).cloned().ok_or_else(|| format!("type `{}` is not a translation target", n))?;
                 // generic structs/enums: instantiated with the parameters of the same name in scope
@@ -654,6 +680,7 @@ impl<'a> Tr<'a> {
     pub fn ty_sig(&self, t: &Ty) -> String {
         match self.sub.resolve(t) {
             Ty::Adt(n, a) if is_transparent_newtype(&n) && a.len() == 1 => self.ty_sig(&a[0]),
+            Ty::Adt(n, a) if is_nonzero(&n, &a) => format!("NonZero<{}>", self.ty_sig(&a[0])),
             Ty::Adt(n, _) => self.reg.structs.get(&n).or_else(|| self.reg.enums.get(&n)).cloned().unwrap_or(n),
             Ty::Slice(e) => format!("[{}]", self.ty_sig(&e)),
             Ty::Option(e) => format!("Option<{}>", self.ty_sig(&e)),
